@@ -206,8 +206,8 @@ ProjRel(op, k, a, r) ==
          /\ r.c[2].c[1] <= 64 /\ r.c[3].c[1] <= 1000
     \* C05 / C06 at small angles (1e-3 .. 1e-8 rad): every representation, built from the angle, inverted, squared or
     \* converted to another representation first, still moves v by the angle about the axis.  a = <<T type, T route, n, v, I>>
-    \* (3-D: n, v exact orthogonal unit vectors) or <<T type, T route, v, I>> (2-D); r = <<distance from the Rodrigues image in
-    \* millionths of the angle, deviation of the image from unit length in eps>>
+    \* (3-D: n, v exact orthogonal unit vectors) or <<T type, T route, v, I>> (2-D); r = <<distance from the Rodrigues image,
+    \* deviation of the image from unit length>> in machine epsilons (256 eps is a few millionths of the smallest angle)
     [] op = "small_rot_proj" ->
          LET ty == Sc(a, 1)  route == Sc(a, 2) IN
          /\ IsIntTup(r, 2)
@@ -215,8 +215,8 @@ ProjRel(op, k, a, r) ==
             THEN Dot(a[3].c, a[3].c) = One /\ route \in {"direct", "invert", "compose"}
             ELSE /\ ty \in {"Quaternion", "Matrix3", "Basis3", "Matrix4"}
                  /\ Dot(a[3].c, a[3].c) = One /\ Dot(a[4].c, a[4].c) = One /\ Dot(a[3].c, a[4].c) = Zero
-                 /\ route \in {"direct", "from_angle", "rotate_vector", "invert", "compose", "via_quat", "via_mat3", "via_basis3", "via_mat4"}
-         /\ r.c[1].c[1] <= 1000 /\ r.c[2].c[1] <= 64
+                 /\ route \in {"direct", "from_angle", "euler", "to_euler", "rotate_vector", "invert", "compose", "via_quat", "via_mat3", "via_basis3", "via_mat4"}
+         /\ r.c[1].c[1] <= 256 /\ r.c[2].c[1] <= 64
     \* C11 close to unit length: normalising x (1 + g), x an exact unit vector, gives x back to rounding
     [] op = "norm_proj" -> /\ IsIntTup(r, 4) /\ Dot(a[1].c, a[1].c) = One /\ \A i \in 1..4 : r.c[i].c[1] <= 16
     \* C13 far from the first turn: the functions of Rad(x) are the real functions of x, whatever the number of turns
